@@ -50,7 +50,7 @@ RAWS = [
     ("str", "inf"), ("str", "-Infinity"), ("str", "nan"), ("str", "1e999"), ("str", "1_0"), ("str", "0x10"), ("str", "1.5.2"),
     ("str", "nf_fin"), ("str", "fz_fin"), ("str", "nf_un"), ("str", "fz_un"), ("str", "ech_fin"), ("str", "ech_un"), ("str", "noout_un"), ("str", "nosuch"),
     ("str", "rel/a.csv"), ("str", "exists.csv"), ("str", "ABS/exists.csv"), ("str", "ABS/missing.csv"),
-    ("str", "WDIR/exists.csv"),  # a path that begins with the working directory's own text (still relative when the working directory is)
+    ("str", "WDIR/exists.csv"), ("str", "run-10:30.csv"), ("str", "model:v2.nc"), ("str", "http://host/x.nc"),  # names with a colon are names  # a path that begins with the working directory's own text (still relative when the working directory is)
     ("list", []), ("list", [("int", 1), ("str", "2.5")]), ("list", [("str", "a"), ("str", "b")]), ("list", [("str", "nf_fin"), ("str", "nf_un")]),
     ("list", [("str", "nf_fin"), ("str", "fz_fin")]), ("list", [("list", [("int", 1)]), ("list", [])]), ("list", [("str", "true"), ("int", 0)]),
     ("list", [("int", 1), ("list", [("int", 2)])]), ("list", [("cmd", "nf_fin")]),
